@@ -335,6 +335,25 @@ pub fn check(sc: &Scenario, ex: &mut Exec) -> (Verdict, Option<String>) {
         if go.is_empty() { "empty" } else if go.len() == 1 { "one_group" } else { "groups" }
     );
     if violations.is_empty() {
+        // probes, never gating (DESIGN 2.4, S5): engine row order of unordered relations, and the
+        // engine's native CTE policy (no MATERIALIZED hint) under the neutral schedule
+        if eng.pragma("PRAGMA reverse_unordered_selects = ON").is_ok() {
+            if let Ok((rev, _)) = ex.query(&mut eng, "dp_reversed_row_order", &dp_sql, &plan) {
+                ex.stats.probe("row_order_probe_runs");
+                if !same_rows_tol(&rev, &dp, 1e-9) {
+                    ex.stats.probe("row_order_changes_neutral_result");
+                }
+            }
+            let _ = eng.pragma("PRAGMA reverse_unordered_selects = OFF");
+        }
+        if let Ok((nat, log)) = ex.query(&mut eng, "dp_native_cte_policy", &pipeline::render_native(&compiled.dp), &plan) {
+            ex.stats.probe("native_cte_probe_runs");
+            if !same_rows_tol(&nat, &dp, 1e-9) {
+                ex.stats.probe("native_cte_policy_changes_neutral_result");
+            }
+            let draws: u64 = log.values().map(|l| l.calls).sum();
+            ex.stats.probe_n("native_cte_policy_draws", draws);
+        }
         (Verdict::Ok, Some(shape))
     } else {
         (Verdict::Violations(violations), Some(shape))
